@@ -221,10 +221,34 @@ class RealDriver:
                 return True
         return False
 
+    # evaluation budget of the simulated environment: a driver that runs out
+    # of budget returns its current iterate with success=False, which is
+    # within scipy's contract (and keeps one run of a check bounded: a
+    # least-squares compensation at tol=1e-8 can otherwise take 500
+    # evaluations per Monte-Carlo trial)
+    MAX_ITER = 100
+    MAX_FEV = 300
+    MAX_LSQ = 50
+
     def minimize(self, fun, *a, **kw):
+        opts = dict(kw.get('options') or {})
+        it = opts.get('maxiter')
+        opts['maxiter'] = self.MAX_ITER if it is None else \
+            min(int(it), self.MAX_ITER)
+        key = {'nelder-mead': 'maxfev', 'powell': 'maxfev',
+               'l-bfgs-b': 'maxfun', 'tnc': 'maxfun'}.get(
+                   str(kw.get('method') or '').lower())
+        if key:
+            opts[key] = min(int(opts.get(key) or self.MAX_FEV), self.MAX_FEV)
+        kw['options'] = opts
         return REAL['minimize'](self._spy(fun), *a, **kw)
 
     def least_squares(self, fun, *a, **kw):
+        # max_nfev does not count the evaluations of the finite-difference
+        # Jacobian (n more per iteration)
+        nf = kw.get('max_nfev')
+        kw['max_nfev'] = self.MAX_LSQ if nf is None else \
+            min(int(nf), self.MAX_LSQ)
         return REAL['least_squares'](self._spy(fun), *a, **kw)
 
     def dual_annealing(self, fun, *a, **kw):
